@@ -64,6 +64,9 @@ type Map struct {
 	vals  []Value
 	index map[interface{}]int
 	live  []bool
+	// hasSym: some live entry has a key that is not a concrete hashable value
+	// (its identity with other keys is decided by the solver, see Interp.mapSet)
+	hasSym bool
 }
 
 type Chan struct {
@@ -133,7 +136,7 @@ func hashKey(v Value) (interface{}, bool) {
 
 func (m *Map) Get(k Value) (Value, bool, bool) {
 	hk, ok := hashKey(k)
-	if !ok {
+	if !ok || m.hasSym {
 		return nil, false, false
 	}
 	if i, ok := m.index[hk]; ok && m.live[i] {
@@ -144,7 +147,7 @@ func (m *Map) Get(k Value) (Value, bool, bool) {
 
 func (m *Map) Set(k, v Value) bool {
 	hk, ok := hashKey(k)
-	if !ok {
+	if !ok || m.hasSym {
 		return false
 	}
 	if i, ok := m.index[hk]; ok && m.live[i] {
@@ -160,7 +163,7 @@ func (m *Map) Set(k, v Value) bool {
 
 func (m *Map) Delete(k Value) bool {
 	hk, ok := hashKey(k)
-	if !ok {
+	if !ok || m.hasSym {
 		return false
 	}
 	if i, ok := m.index[hk]; ok {
